@@ -167,7 +167,7 @@ def _nonuniform(case):
 
 
 def _nonconstant(tab):
-    return any(len(set(r)) > 1 for r in tab)
+    return any(len(set(str(x) for x in r)) > 1 for r in tab)
 
 
 def _lin(case, tab):
@@ -205,6 +205,11 @@ def _direct_strategy(tier):
         if tier == "thorough" and S <= 4 and draw(st.integers(0, 4)) == 0:
             case["mc"] = 3
         cvk = draw(st.sampled_from(["none", "table", "table", "const"]))
+        if is_log and draw(st.integers(0, 3)) == 0:
+            # f = 0 at some points (log f = -inf), as in the repository's own LogFunc
+            zero = draw(st.lists(st.lists(st.booleans(), min_size=S, max_size=S), min_size=B, max_size=B))
+            case["f"] = [["-inf" if z else x for x, z in zip(r, zr)] for r, zr in zip(case["f"], zero)]
+            cvk = "none"
         if cvk == "none":
             case["cv"] = None
         elif is_log:
@@ -328,6 +333,8 @@ def _direct_check(case):
         scale += max(abs(x) for r in _lin(case, case["cv"]) for x in r)
     _check_against_exact(case, "DirectEstimator", Ev, Eg[0], Eg[1], tab_lin, scale)
     classes = ["kind_" + kind, "mc_%d" % mc, "is_log" if is_log else "linear", case.get("dtype", "float32")]
+    if any(x == "-inf" for r in case["f"] for x in r):
+        classes.append("f_zero_somewhere")
     if case["cv"] is None:
         classes.append("no_cv")
     elif _nonconstant(case["cv"]):
@@ -429,9 +436,14 @@ def _enum_strategy(tier):
                     "dtype": "float32", "f": draw(_table_strategy(B, 2 ** out))}
         kind, B, size = draw(_space(["bern_batch", "cat_index", "cat_onehot"]))
         S = _nspace(kind, size)
-        return {"kind": kind, "B": B, "size": size, "is_log": draw(st.booleans()), "mc": 1,
+        case = {"kind": kind, "B": B, "size": size, "is_log": draw(st.booleans()), "mc": 1,
                 "dtype": draw(st.sampled_from(["float32", "float64"])),
                 "logits": draw(_logits_strategy(kind, B, size)), "f": draw(_table_strategy(B, S))}
+        if case["is_log"] and draw(st.integers(0, 3)) == 0:
+            # f = 0 at some (not all) points of each row: the logarithm of a zero estimate has no gradient
+            zero = draw(st.lists(st.lists(st.booleans(), min_size=S, max_size=S), min_size=B, max_size=B))
+            case["f"] = [["-inf" if (z and i) else x for i, (x, z) in enumerate(zip(r, zr))] for r, zr in zip(case["f"], zero)]
+        return case
 
     return build()
 
@@ -463,7 +475,8 @@ def _enum_check(case):
         nb = B if case["batched"] else 1
         require(tuple(v.shape) == ((B,) if case["batched"] else ()), "estimate must have the proposal's batch shape", list(v.shape), None)
         val = v.exp() if is_log else v
-        (gtab,) = torch.autograd.grad(val.sum(), [tab])
+        (gtab,) = torch.autograd.grad(val.sum(), [tab], allow_unused=True)
+        gtab = torch.zeros_like(tab) if gtab is None else gtab
         combos = [c for c in itertools.combinations(range(T), L)]
         idxs = [sum(2 ** i for i in c) for c in combos]
         for b in range(nb):
@@ -482,7 +495,9 @@ def _enum_check(case):
     v = EnumerateEstimator(dist, func, is_log)()
     require(tuple(v.shape) == (B,), "estimate must have the proposal's batch shape", list(v.shape), [B])
     val = v.exp() if is_log else v
-    gth, gtab = torch.autograd.grad(val.sum(), [theta, tab])
+    gth, gtab = torch.autograd.grad(val.sum(), [theta, tab], allow_unused=True)
+    gth = torch.zeros_like(theta) if gth is None else gth  # no path to the parameters = zero gradient
+    gtab = torch.zeros_like(tab) if gtab is None else gtab
     Ev = [float(x) for x in val]
     Eg = [[float(x) for x in gth[b].reshape(-1)] for b in range(B)]
     Et = [[float(x) for x in gtab[b]] for b in range(B)]
@@ -492,7 +507,8 @@ def _enum_check(case):
 
 # ------------------------------------------------------------------ D. relaxation-based estimators (quadrature)
 
-K = 64  # quadrature cells per uniform variable
+K = 64  # probabilities are multiples of 1/K, so the threshold u = 1 - p is a cell boundary of every grid below
+KR = 256  # cells per uniform variable for the two-dimensional RELAX grid (a multiple of K)
 
 
 def _grid_rand(plan):
@@ -555,7 +571,7 @@ def _relaxed_strategy(tier):
 
 
 @subcheck("C19", "relaxed_quadrature", _relaxed_strategy, 250, 5000,
-          doc="StraightThroughEstimator and RelaxEstimator (own control variate and the REBAR module) on LogisticBernoulli with p = j/64: the uniforms are replaced by the 64-point midpoint grid (64x64 for the conditional draw) laid out along the Monte-Carlo dimension; returned mean == exact expectation within the midpoint-rule bound sum max|g''|/(24 K^2) (g'' bounded numerically in float64) + float noise",
+          doc="StraightThroughEstimator and RelaxEstimator (own control variate and the REBAR module) on LogisticBernoulli with p = j/64: the uniforms are replaced by the 64-point midpoint grid (256x256 for RELAX: relaxed x conditional draw) laid out along the Monte-Carlo dimension; returned mean == exact expectation within twice the midpoint-rule bound sum max|g''|/(24 K^2) (g'' bounded numerically in float64) + float noise",
           required_classes=["est_st", "est_relax", "est_rebar", "is_log", "p_extreme"])
 def _relaxed_check(case):
     import torch
@@ -601,10 +617,10 @@ def _relaxed_check(case):
         def cv(z):
             return eta * _poly(case["h"])(torch.sigmoid(z / temp))
 
-    plan = [lambda s, d: _midpoints(s, d, "outer", K), lambda s, d: _midpoints(s, d, "inner", K)]
+    plan = [lambda s, d: _midpoints(s, d, "outer", KR), lambda s, d: _midpoints(s, d, "inner", KR)]
     rand, rand_like, state = _grid_rand(plan)
     with fakes.patched(torch, rand=rand, rand_like=rand_like):
-        v = RelaxEstimator(dist, func, K * K, cv, is_log=is_log)()
+        v = RelaxEstimator(dist, func, KR * KR, cv, is_log=is_log)()
     require(state["n"] == 2, "RELAX must draw the relaxed and the conditional uniforms once each", state["n"], 2)
     val = (v.exp() if is_log else v).reshape(-1)
     cmax = 0.0
@@ -615,7 +631,7 @@ def _relaxed_check(case):
         g1 = lambda u: c_lin(ex.logistic_zcond(p, 1, u))  # noqa: E731
         g0 = lambda u: c_lin(ex.logistic_zcond(p, 0, u))  # noqa: E731
         bound = (ex.second_derivative_bound(g) + p * ex.second_derivative_bound(g1)
-                 + (1 - p) * ex.second_derivative_bound(g0)) / (24.0 * K * K)
+                 + (1 - p) * ex.second_derivative_bound(g0)) / (24.0 * KR * KR)
         cmax = max(abs(g(0.001)), abs(g(0.5)), abs(g(0.999)), 1.0)
         tol = 2.0 * bound + _tol(case, scale + cmax, f32=2e-4, f64=1e-8)
         require(abs(float(val[b]) - exact[b]) <= tol,
@@ -954,7 +970,11 @@ def _srswor_one(total, given, out_size, seed, route, sample_shape=()):
 
     torch.manual_seed(seed)
     tt, gg = torch.as_tensor(total), torch.as_tensor(given)
-    if route == "functional":
+    zero_length = (int(tt.max()) if out_size is None else out_size) == 0
+    # the distribution's own support constraint demands a positive vector size (argcheck in
+    # BinaryCardinalityConstraint), so zero-length vectors are in the domain of the function only
+    if route == "functional" or zero_length:
+        tt, gg = torch.broadcast_tensors(tt, gg)
         if sample_shape:
             tt, gg = tt.expand(tuple(sample_shape) + tt.shape), gg.expand(tuple(sample_shape) + gg.shape)
         return srs(tt, gg, out_size), None
